@@ -488,6 +488,19 @@ type Contract struct {
 	Trusted  bool // contract is assumed, the body is not verified against it (listed in the evidence)
 	StoresOnly []*StoreRule // restrictions on the stores the function's own body performs
 	AllocBounds []*AllocBound // bounds on the capacity of every make([]T, ...) in the function's own body
+	Externals []*ExternRule // the library functions the function's own body may call
+}
+
+// ExternRule ("externals[props] label: pkg.F, (*pkg.T).M, ..."): every statically resolved call that the
+// function's own body (or a helper inlined into it) makes to a function outside the verified packages is
+// to one of the listed functions.  Calls inside the verified packages are unrestricted, so helper
+// extraction does not matter; what is pinned is the library surface (a decoder option, a post-processing
+// of a serialised text, ...).
+type ExternRule struct {
+	Props   []string
+	Label   string
+	Allowed map[string]bool
+	Src     string
 }
 
 // AllocBound ("allocbound[props] label: N"): every make([]T, len, cap) executed by the function's own body
@@ -779,6 +792,18 @@ func (sf *SpecFile) load(path string) error {
 			default:
 				cur.Asserts = append(cur.Asserts, cl)
 			}
+		case "externals":
+			if cur == nil {
+				return fail(fmt.Errorf("clause outside func"))
+			}
+			props, label, body := parseTagsLabel(rest)
+			r := &ExternRule{Props: props, Label: label, Allowed: map[string]bool{}, Src: body}
+			for _, m := range splitTop(body) {
+				if m = strings.TrimSpace(m); m != "" {
+					r.Allowed[m] = true
+				}
+			}
+			cur.Externals = append(cur.Externals, r)
 		case "allocbound":
 			if cur == nil {
 				return fail(fmt.Errorf("clause outside func"))
@@ -975,6 +1000,13 @@ func (c *Contract) hasProp(p string) bool {
 				if q == p {
 					return true
 				}
+			}
+		}
+	}
+	for _, r := range c.Externals {
+		for _, q := range r.Props {
+			if q == p {
+				return true
 			}
 		}
 	}
